@@ -396,9 +396,7 @@ pub fn check_log(
 }
 
 fn work_file(name: &str) -> String {
-    let dir = format!("{}/work/{}", crate::verif_root(), std::process::id());
-    std::fs::create_dir_all(&dir).ok();
-    format!("{}/{}", dir, name)
+    format!("{}/{}", crate::scratch_dir(), name)
 }
 
 pub fn run(tier: Tier) -> RunOutcome {
